@@ -89,3 +89,16 @@ Lemma hot_reloaded_flag_is_forwarded :
   forwards Storable_HOT_RELOADED "T" = true /\ forwards OnceInit_HOT_RELOADED "U" = true /\
   descriptor_wf Inner_of_asset = true /\ descriptor_wf Inner_of_storable = true.
 Proof. vm_compute. repeat split. Qed.
+
+(* trait defaults: one extension given through EXTENSION is the whole extension list -- also when it
+   is the empty string (files without extension); assets and compounds are reloadable unless they
+   say otherwise, plain Storable values are not *)
+Definition defaults_wf : bool :=
+  match fn_body Asset_EXTENSIONS, fn_body Asset_EXTENSION, fn_body Asset_HOT_RELOADED,
+        fn_body Compound_HOT_RELOADED, fn_body Storable_HOT_RELOADED_default with
+  | [ERef (EArray [EPath ["Self"; "EXTENSION"]])], [ELit (LStr "")], [ELit (LBool true)],
+    [ELit (LBool true)], [ELit (LBool false)] => true
+  | _, _, _, _, _ => false
+  end.
+Lemma trait_defaults : defaults_wf = true.
+Proof. vm_compute. reflexivity. Qed.
